@@ -284,3 +284,78 @@ def fill(claim, na):
     na('C08', 'every clause quantifies over numerical values (expectation values, overlaps, Born '
        'weights); the only structural part (Jordan-Wigner routing of measurement entry points) is '
        'decided under C12')
+
+
+# clauses added in later rounds (rules written against independently seeded changes); appended to
+# the scope text of the claim, inserted before the final "not decided" sentence's position is not
+# needed: they are stated as additional decided structural clauses.
+EXTRA = {
+    'C01': 'Also: result dtype of concatenate is accumulated over ALL operands (no last-wins '
+           'update in the loop); `A[inds] = B` zeroes the addressed blocks unconditionally '
+           'before copying; index bounds are inclusive (index == size rejected).',
+    'C02': 'Also: a leg that keeps only some rows of the charges (project) inherits `bunched` '
+           'only under a witness, never from the old flag alone.',
+    'C03': 'Also: helpers that normalise a list argument never hand the caller\'s own list back '
+           'into a stored attribute (MPO._get_Id).',
+    'C04': 'Also: where both twins sweep an array with counted loops, the swept index regions '
+           '(first / last index as polynomials of the loop bounds) agree (PAIR-regions); a '
+           'transposition skipped under a comparison with range(..) must be guarded by a test '
+           'that sees the order of every sequence the permutation is built from '
+           '(PAIR-skip-transpose).',
+    'C05': 'Also: hidden pipes of U and VH are split independently of each other; the number of '
+           'inner indices marked per block comes from the factor actually produced, not from '
+           'the input block shape.',
+    'C06': 'Also: split_legs works on the sorted list of axes; a pipe replaced inside the loop '
+           'over given pipes is written back to the list that is returned.',
+    'C07': 'Also: a one-site read-modify-write through get_B/set_B is not separated by a write '
+           'to another (possibly identical) site; _scale_axis_B applies S**form_diff for every '
+           'value form_diff is compared with (finite case analysis over -1, -1/2, 0, 1/2, 1).',
+    'C09': 'Also: tensors fed into a state built with form=None come from get_B(form=None) on '
+           'every site (bond coverage); spatial_inversion reverses the list of forms as well as '
+           'swapping each pair.',
+    'C10': 'Also: on-site weights when merging MPO on-site terms into bonds (1 at a finite '
+           'boundary, 1/2 elsewhere) in both implementations; the basis permutation that undoes '
+           'charge sorting is the inverse permutation; bond_energies uses the same bond '
+           'convention as H_bond; the fermionic reordering sign travels with the term into the '
+           'hermitian-conjugate call.',
+    'C11': 'Also: MPO.plus_identity: the exponents of beta**(1/N) collected along every path '
+           'through the blocks (start C, middle A, end B, on-site D) add up to N as exact '
+           'polynomial identities in the positions of the term relative to the chosen sites, '
+           'and the two identity chains carry beta exactly once (WEIGHT-path).',
+    'C12': 'Also: change_charge does not update the (possibly shared) state_labels dict in '
+           'place.',
+    'C13': 'Also: IdL / IdR / bond dimension used on one per-bond array in the mixers belong to '
+           'the same MPO bond (index polynomials; get_IdL(i) = bond i, get_IdR(i) and the wR leg '
+           'of W_i = bond i+1); adjoint() of OneSiteH / TwoSiteH conjugates every tensor that '
+           'matvec / to_matrix contract, in the combined configuration too.',
+    'C14': 'Also: stepping methods outside the run path (TEBDEngine.update_imag) advance '
+           'evolved_time by N_steps times the same step as update().',
+    'C15': 'Also: dimensional analysis of svd_theta / eigh_rho (degree under rescaling of the '
+           'input, power of the kept norm, spectrum power): truncate() receives a normalised '
+           'spectrum of singular values and the returned S / renormalization / W have the '
+           'documented degrees; the degeneracy mask always allows cut 0; no tensor method that '
+           'returns a new tensor is called for effect in truncation.py (TRUNC-value-dropped).',
+    'C16': 'Also: GMRES.reset() prepares the per-cycle state by the same expressions as '
+           '__init__ (rs[0] read as rs[-1]) and the first Krylov vector is the residual divided '
+           'by its own norm, e1 scaled with that norm.',
+    'C17': 'Also: a from_hdf5 that rebuilds through cls(..) passes every loaded value to the '
+           'constructor parameter that determines the attribute saved under that key (data / '
+           'control dependence through __init__ and helpers); the own object is memorized before '
+           'any loader call that memorizes the same group; test_sanity() at the end of a loader '
+           'reads only assigned attributes (property setters and __setstate__ modelled); the '
+           'compact masked-array format is chosen under a universally quantified condition; the '
+           'simple-key predicate for dicts rejects \'\', \'.\', keys with \'/\' and non-strings '
+           '(constant folding on witnesses).',
+    'C18': 'Also: in-place preparations of psi in init_state sit under `not hasattr(self, '
+           '"psi")`; overrides receiving resume_data (named or through **kwargs of '
+           'constructors) forward it to the base implementation; resume_from_checkpoint does '
+           'not pass `sequential` twice to run_seq_simulations nor the output_filename generated '
+           'for the resumed simulation.',
+    'C19': 'Also: every floor division in mps2lat_idx / lat2mps_idx is exact by a '
+           'multiple-of fact (difference to the own residue); a field from which a recompute '
+           'method derives N_cells / N_sites is only changed on paths that run that method '
+           'afterwards (CFG must-follow).',
+    'C20': 'Also: the result of a task is stored before task_done() on every path; keys leave '
+           '_waiting_for_load only after their load task finished (join / worker exit / assert '
+           'key in _loaded dominates).',
+}
